@@ -41,7 +41,8 @@ def _labels(npu_op_list, npu_op_to_cmd):
             if lab["dma"]:
                 lab.update(src=[op.src.region, op.src.address, op.src.length], dest=[op.dest.region, op.dest.address, op.dest.length])
                 if cmd is not None and hasattr(cmd, "in_tensor"):
-                    lab.update(in_tensor=cmd.in_tensor.name, out_tensor=cmd.out_tensor.name, in_purpose=cmd.in_tensor.purpose.name, box=_label_fm_box(cmd.box))
+                    lab.update(in_tensor=cmd.in_tensor.name, out_tensor=cmd.out_tensor.name, in_purpose=cmd.in_tensor.purpose.name, box=_label_fm_box(cmd.box),
+                               in_eq=str(cmd.in_tensor.equivalence_id), out_eq=str(cmd.out_tensor.equivalence_id))
             elif cmd is not None:
                 ps = cmd.ps
                 po = ps.primary_op
@@ -62,6 +63,8 @@ def _labels(npu_op_list, npu_op_to_cmd):
                            write_offset=[int(x) for x in po.write_offset] if po.write_offset is not None else None,
                            write_shape=[int(x) for x in po.write_shape] if po.write_shape is not None else None,
                            ofm_full_shape=[int(x) for x in ps.ofm_shapes[0]] if ps.ofm_shapes else None, ifm_full_shape=[int(x) for x in ps.ifm_shapes[0]] if ps.ifm_shapes else None,
+                           lut_eq=([str(t.equivalence_id) for t in po.inputs if t is not None and t.purpose.name == "LUT"] or [None])[0],
+                           scale_tensor=cmd.scale_tensor.name if getattr(cmd, "scale_tensor", None) is not None else None,
                            upscale=getattr(op.ifm_upscale, "name", None), weight_tensor=cmd.weight_tensor.name if cmd.weight_tensor is not None else None,
                            weight_box=_label_fm_box(cmd.weight_box) if cmd.weight_box is not None else None)
         except Exception as e:  # labels are best effort; they never decide a property on their own
